@@ -50,7 +50,7 @@ def jobs(tier, seed):
         J.append(Job('info-scan:ed%d' % ed, 'harness.c17', 'h_info', {'edition': ed, 'mode': 'scan'}, timeout=900,
                      witnesses=['scan+0', 'scan-3', 'scan+2', 'scan+5']))
     if thorough:
-        J.append(Job('info-vs-full:rep', 'harness.c17', 'h_info', {'edition': 4, 'mode': 'valid', 'ids': [101000, 31001, 12001, 1004], 'nbits': 8 + 24 + 3},
+        J.append(Job('info-vs-full:rep', 'harness.c17', 'h_info', {'edition': 4, 'mode': 'valid', 'ids': [101002, 12001, 1004], 'nbits': 24 + 3},
                      timeout=1800, witnesses=['agree'], core=False))
     J.append(Job('canary:first-match', 'harness.c17', 'h_query', {'edition': 3}, timeout=300, max_cex=1,
                  mutate="pybufrkit.mdquery::        for section in sections:-->>        for section in reversed(sections):"))
